@@ -120,6 +120,26 @@ def ties_stream(v, findings):
                     ok = False
             if not ok:
                 problems.append(dict(kind="rank_unmarked_nulls", backend=be, table=df.to_dict(as_series=False), descending=desc, dense=dense, partitioned=part, got=got))
+    # a multi-key arrange over many fully tied rows keeps the table order among them (Polars: a stable sort; the reference semantics
+    # sorts stably), also as the first arrange of a pipeline and under slice_head
+    for nrows in ((40, 90) if v.tier == "quick" else (25, 40, 90, 300, 2000)):
+        df = pl.DataFrame({"i": list(range(nrows)), "k1": [rng.choice([1, 2]) for _ in range(nrows)], "k2": [rng.choice([1, 2, None]) for _ in range(nrows)]},
+                          schema={"i": pl.Int64, "k1": pl.Int64, "k2": pl.Int64})
+        t = pdt.Table(df, name="c05stable")
+        for desc in (False, True):
+            k1 = t.k1.descending() if desc else t.k1
+            for sliced in (False, True):
+                q = t >> pdt.arrange(k1, t.k2.nulls_last())
+                if sliced:
+                    q = q >> pdt.slice_head(nrows // 2, offset=3)
+                out = (q >> pdt.export(pdt.Polars())).to_dicts()
+                want = sorted(df.to_dicts(), key=lambda r_: ((-r_["k1"] if desc else r_["k1"]), (r_["k2"] is None, r_["k2"] or 0), r_["i"]))
+                if sliced:
+                    want = want[3:3 + nrows // 2]
+                n += 1
+                if [r_["i"] for r_ in out] != [r_["i"] for r_ in want]:
+                    problems.append(dict(kind="arrange_not_stable", backend="polars", rows=nrows, descending=desc, sliced=sliced,
+                                         got=[r_["i"] for r_ in out][:30], expected=[r_["i"] for r_ in want][:30]))
     groups = {}
     for d in problems:
         groups.setdefault((d["kind"], d["backend"]), []).append(d)
